@@ -366,7 +366,8 @@ func instEcalli(interp *Interpreter, pc ProgramCounter, skipLength ProgramCounte
 		return ExitPanic, pc
 	}
 
-	return ExitHostCall | ExitReason(nuX), pc
+	// keep the payload below the reason tag: nu_X is a sign-extended 32-bit value
+	return ExitHostCall | ExitReason(uint32(nuX)), pc
 }
 
 // opcode 20
